@@ -108,7 +108,13 @@ void StdVectorBase<T, Alloc, SizeType>::freeStorage() noexcept {
 template <class T, class Alloc, class SizeType>
 void SmallVectorBase<T, Alloc, SizeType>::resetToSmall(SizeType inplaceCapa) {
   T *dynStorage = _storage.dyn();
-  (void)amc::uninitialized_relocate_n(dynStorage, _size, _storage.ptr());
+  try {
+    (void)amc::uninitialized_relocate_n(dynStorage, _size, _storage.ptr());
+  } catch (...) {
+    // Elements are still in the dynamic storage, but its pointer shares its bytes with the inline storage: restore it
+    _storage.setDyn(dynStorage);
+    throw;
+  }
   this->deallocate(dynStorage, _capa);
   _capa = _size;
   _size = _size == inplaceCapa ? std::numeric_limits<SizeType>::max() : inplaceCapa;
